@@ -144,7 +144,9 @@ impl PieceType for Pawn {
             // or if the there is no check and the opponent's pawn doesn't block a check against our king
             // then we can capture it via en-passant with any unpinned pawn on the same rank and adjacent file as the
             // opponent's pawn
-            if check_mask.contains(capture_pawn) {
+            // (a position set up by hand can also have a slider checking through the
+            // en-passant square, in which case the capture blocks the check)
+            if check_mask.contains(capture_pawn) || (check_mask & dest).any() {
                 let opp = board.raw[!board.turn];
                 let queens = board.raw[Piece::Queen];
                 let rooks = (board.raw[Piece::Rook] | queens) & opp;
